@@ -178,7 +178,7 @@ def timed_real(cs):
     return real
 
 
-def correspond(ctx):
+def _correspond_main(ctx):
     cs = cases(ctx)
     t0 = time.time()
     real = timed_real(cs)
@@ -240,3 +240,16 @@ def replay(payload):
     r = sr.real_scan(inp["language"], inp["code"])
     print("%s %r -> %s" % (inp["language"], inp["code"][:80], r[:100]))
     return not r.startswith("err")
+
+
+def correspond(ctx):
+    """byte strings (all 1-4 byte UTF-8 boundary cases, invalid sequences, CR/CRLF, BOM) through the real Scanner._read_file vs Model/Decode.lean (Props/Gaps.lean part 4)"""
+    import gaps_stream
+    res = _correspond_main(ctx)
+    dis, counts = gaps_stream.for_check(ctx, (4,), ctx.pick(3000, 22000), 'decode')
+    res["disagreements"] = list(res["disagreements"]) + dis
+    res["evaluations"] += sum(v.get(k, 0) for v in counts.values() if isinstance(v, dict)
+                              for k in ("texts", "byte_files", "check_command_runs", "report_runs", "cases"))
+    res["distribution"] = dict(res.get("distribution", {}), gaps=counts)
+    res["rule"] += " PLUS byte strings (all 1-4 byte UTF-8 boundary cases, invalid sequences, CR/CRLF, BOM) through the real Scanner._read_file vs Model/Decode.lean (Props/Gaps.lean part 4)"
+    return res
